@@ -163,12 +163,20 @@ def run(run, tier, seed):
     tmp = vlib.shm_dir("c20")
     try:
         nruns = 6 if tier == "quick" else 40
-        for ri in range(nruns + 3):
+        for ri in range(nruns + 6):
             k = rng.choice([9, 15, 21, 31, 33, 41]) if ri else 31
             rc = ri % 3 != 0
             cov = rng.randint(10, 30) if tier == "quick" else rng.randint(10, 80)
             glen = int(max(600, 140 * math.sqrt(cov))) + rng.randint(0, 300)
-            if ri == nruns + 2:
+            if ri >= nruns + 3:
+                # the table ends inside the error tail (the coverage peak is shared by fewer than 50 k-mers per multiplicity):
+                # the cutoff is capped at the table length, and the last row (count = cutoff) is Coverage
+                k, rc = [15, 31, 9][ri - nruns - 3], True
+                hist = [{1: 2000, 2: 300, 3: 60, 28: 45, 29: 49, 30: 40}, {1: 1500, 2: 120, 24: 40, 25: 30},
+                        {1: 900, 2: 200, 3: 90, 4: 55, 40: 20, 41: 30, 42: 25}][ri - nruns - 3]
+                reads = designed_reads(rng, k, hist)
+                cov, glen = 30, sum(hist.values())
+            elif ri == nruns + 2:
                 # a high-copy element: the table runs on to a multiplicity of about 200 (mostly empty rows)
                 k, rc = 21, True
                 hist = {1: 600, 2: 80, 9: 55, 10: 60, 11: 80, 12: 100, 13: 80, 14: 60, 199: 10, 200: 52, 201: 5}
@@ -196,9 +204,17 @@ def run(run, tier, seed):
                 events.append({"ev": "cov", "id": ri, "panic": "ska cov did not terminate within 300 s", "reads": len(reads), "k": k})
                 continue
             fit = vlib.skav("exec", [{"op": "cov", "what": "fit", "k": k, "rc": rc, "f1": f1, "f2": f2}])[0]
-            if rcode == 0 and fit.get("converged") and not (1e-9 < fit["w0"] < 1 - 1e-9 and fit["c"] >= 1.0):
-                run.notes.append("run %d: fitted parameters on the boundary (w0=%r c=%r): the oracle is undefined there (trivial)" % (ri, fit["w0"], fit["c"]))
-                continue
+            boundary = rcode == 0 and fit.get("converged") and not (1e-9 < fit["w0"] < 1 - 1e-9 and fit["c"] >= 1.0)
+            if boundary:
+                # a fit pressed against the boundary (typically w0 -> 1: no coverage peak in the table). The sign oracle loses
+                # digits in ln(1 - w0); it is still decisive when every log ratio is far from zero, otherwise the run is trivial.
+                nrows_ = len([l_ for l_ in so.decode().splitlines()[1:] if len(l_.split("\t")) == 4])
+                far = (0.0 < fit["w0"] < 1.0 and fit["c"] >= 1.0
+                       and all(abs(log_ratio(fit["w0"], fit["c"], i)) > 1.0 for i in range(1, nrows_ + 2)))
+                if not far:
+                    run.notes.append("run %d: fitted parameters on the boundary (w0=%r c=%r) and a log ratio near zero: the oracle is "
+                                     "undefined there (trivial)" % (ri, fit["w0"], fit["c"]))
+                    continue
             if rcode != 0 or not fit.get("converged"):
                 run.notes.append("run %d: optimiser did not converge / cov failed (trivial)" % ri)
                 continue
@@ -215,15 +231,18 @@ def run(run, tier, seed):
             gcode = vlib.skav("exec", [{"op": "cov", "what": "ll", "pars": [w0, c], "counts": counts}])[0]
             gw, gc = grad_fd(w0, c, counts)
             scale = max(1.0, abs(mix_ll(w0, c, counts)))
-            grad_ok = (abs(gcode["grad"][0] - gw) <= 1e-4 * max(1.0, abs(gw), scale * 1e-3)
-                       and abs(gcode["grad"][1] - gc) <= 1e-4 * max(1.0, abs(gc), scale * 1e-3)
-                       and close(gcode["ll"], mix_ll(w0, c, counts), 1e-9))
+            grad_ok = boundary or (abs(gcode["grad"][0] - gw) <= 1e-4 * max(1.0, abs(gw), scale * 1e-3)
+                                   and abs(gcode["grad"][1] - gc) <= 1e-4 * max(1.0, abs(gc), scale * 1e-3)
+                                   and close(gcode["ll"], mix_ll(w0, c, counts), 1e-9))
             events.append({"ev": "cov", "id": ri, "panic": "",
                            "ctx": {"reads1": [b(r) for r in reads[:half]], "reads2": [b(r) for r in reads[half:]], "k": k, "rc": rc},
                            "table": table, "cutoff": cut[0] if cut else -1, "cutoff_fit": fit["cutoff"], "counts": fit["counts"],
                            "neg": neg, "grad_ok": grad_ok, "w0": w0, "c": c, "coverage": cov, "genome": glen})
             if n >= 2 and 1 < fit["cutoff"] < n:
                 run.nontriv(["cov", reads[:3], k, rc, len(reads)])
+            if n >= 2 and fit["cutoff"] == n:
+                run.nontriv(["cov-capped", reads[:3], k, rc, len(reads)])
+                run.extra["capped_runs"] = run.extra.get("capped_runs", 0) + 1
     finally:
         shutil.rmtree(tmp, ignore_errors=True)
     vlib.log("cov runs done")
